@@ -8,10 +8,10 @@ Local Open Scope nat_scope.
 
 (* the value of a virtual signal in a checked row = its expression evaluated in a context with NO program variables over the outputs of THIS row's call (ctx_new (couts c), where couts c is this call's answer by C04); the generator state is threaded through the preceding virtual signals *)
 Theorem C14_virtual_value :
-  forall (G : gen) (tc : testcase) (outs0 : list out_entry) (oi : list out_index)
+  forall (G : gen) (tc : testcase) (outs0 : list out_entry) (nout : nat) (oi : list out_index)
   (outs : list out_entry) (c c' : ctx) (vals : list outval) (k : nat) (e : expr),
   build_output_indices tc outs0 = Ok oi ->
-  extract_output_values G tc oi outs c = (c', Ok vals) ->
+  extract_output_values G tc nout oi outs c = (c', Ok vals) ->
   calt c = fm_new ->
   nth_error oi k = Some (OIVirtual e) ->
   exists n : Z,
@@ -21,10 +21,10 @@ Proof. exact virtual_value. Qed.
 
 (* without random in declarations: evaluated at the row's generator state, which it leaves unchanged *)
 Theorem C14_virtual_value_no_random :
-  forall (G : gen) (tc : testcase) (outs0 : list out_entry) (oi : list out_index)
+  forall (G : gen) (tc : testcase) (outs0 : list out_entry) (nout : nat) (oi : list out_index)
   (outs : list out_entry) (c c' : ctx) (vals : list outval) (k : nat) (e : expr),
   build_output_indices tc outs0 = Ok oi ->
-  extract_output_values G tc oi outs c = (c', Ok vals) ->
+  extract_output_values G tc nout oi outs c = (c', Ok vals) ->
   calt c = fm_new ->
   no_random_entries oi = true ->
   nth_error oi k = Some (OIVirtual e) ->
@@ -34,13 +34,14 @@ Proof. exact virtual_value_no_random. Qed.
 
 (* program variables are invisible to virtual signals: two contexts differing only in their variables give the same values *)
 Theorem C14_blind_to_variables :
-  forall (G : gen) (tc : testcase) (oi : list out_index) (outs : list out_entry) (c1 c2 : ctx),
+  forall (G : gen) (tc : testcase) (nout : nat) (oi : list out_index) (outs : list out_entry)
+  (c1 c2 : ctx),
   calt c1 = calt c2 ->
   couts c1 = couts c2 ->
   crng c1 = crng c2 ->
-  snd (extract_output_values G tc oi outs c1) = snd (extract_output_values G tc oi outs c2) /\
-  crng (fst (extract_output_values G tc oi outs c1)) =
-  crng (fst (extract_output_values G tc oi outs c2)).
+  snd (extract_output_values G tc nout oi outs c1) = snd (extract_output_values G tc nout oi outs c2) /\
+  crng (fst (extract_output_values G tc nout oi outs c1)) =
+  crng (fst (extract_output_values G tc nout oi outs c2)).
 Proof. exact virtual_blind_to_variables. Qed.
 
 Theorem C14_eval_sees_only_lookups :
@@ -50,41 +51,41 @@ Proof. exact eval_blind_to. Qed.
 
 (* the swap of the variable maps is always undone: program variables, alternate map and outputs are as before *)
 Theorem C14_variables_restored :
-  forall (G : gen) (tc : testcase) (oi : list out_index) (outs : list out_entry) 
+  forall (G : gen) (tc : testcase) (nout : nat) (oi : list out_index) (outs : list out_entry)
   (c c' : ctx) (r : R rterr (list outval)),
-  extract_output_values G tc oi outs c = (c', r) ->
+  extract_output_values G tc nout oi outs c = (c', r) ->
   cvars c' = cvars c /\ calt c' = calt c /\ couts c' = couts c.
 Proof. exact extract_restores_vars. Qed.
 
 (* an evaluation error of a virtual signal (earlier entries having succeeded) makes the row an error item *)
 Theorem C14_error_is_row_error :
-  forall (G : gen) (tc : testcase) (outs0 : list out_entry) (oi : list out_index)
+  forall (G : gen) (tc : testcase) (outs0 : list out_entry) (nout : nat) (oi : list out_index)
   (outs : list out_entry) (c : ctx) (k : nat) (e : expr) (xe : xerr) (c1 : ctx)
   (vals1 : list outval),
   build_output_indices tc outs0 = Ok oi ->
-  length outs = num_outputs oi ->
+  length outs = nout ->
   calt c = fm_new ->
   nth_error oi k = Some (OIVirtual e) ->
   extract_loop G tc (combine (firstn k (tc_expected_indices tc)) (firstn k oi)) outs (ctx_swap_vars c) =
   (c1, Ok vals1) ->
   fst (eval G (ctx_new (couts c)) e (crng c1)) = Err xe ->
-  snd (extract_output_values G tc oi outs c) = Err (RT_Expr xe).
+  snd (extract_output_values G tc nout oi outs c) = Err (RT_Expr xe).
 Proof. exact virtual_error_is_row_error. Qed.
 
 (* a virtual signal reading a Z or X output: error item, not a panic, not a wrong value *)
 Theorem C14_ZX_is_error :
-  forall (G : gen) (tc : testcase) (outs0 : list out_entry) (oi : list out_index)
+  forall (G : gen) (tc : testcase) (outs0 : list out_entry) (nout : nat) (oi : list out_index)
   (outs : list out_entry) (c : ctx) (k : nat) (x : name) (v : outval) (c1 : ctx)
   (vals1 : list outval),
   build_output_indices tc outs0 = Ok oi ->
-  length outs = num_outputs oi ->
+  length outs = nout ->
   calt c = fm_new ->
   nth_error oi k = Some (OIVirtual (EVar x)) ->
   extract_loop G tc (combine (firstn k (tc_expected_indices tc)) (firstn k oi)) outs (ctx_swap_vars c) =
   (c1, Ok vals1) ->
   ctx_get (ctx_new (couts c)) x = Some v ->
   v = OZ \/ v = OX ->
-  snd (extract_output_values G tc oi outs c) = Err (RT_Expr (XE_UnexpectedValueForSignal x v)).
+  snd (extract_output_values G tc nout oi outs c) = Err (RT_Expr (XE_UnexpectedValueForSignal x v)).
 Proof. exact virtual_ZX_is_error. Qed.
 
 (* the entry of a virtual signal is exactly its declared expression *)
